@@ -91,6 +91,15 @@ pub fn run(ctx: &Ctx, reg: &Registry) -> i32 {
                 let case = gen_case(reg, s, ctx.seed.wrapping_add(202), i, false);
                 note_case(&mut acc, s, &case);
                 run_both(&mut acc, reg, s, &case);
+                // non-finite floats (second value source only): the only faults a serde_json::Value target can have
+                if i % 4 == 0 {
+                    let case = gen_case_h(reg, s, ctx.seed.wrapping_add(2020), i, Host { dup: false, nonfinite: true, noncanon: false });
+                    if !case.payload.json_representable() {
+                        note_case(&mut acc, s, &case);
+                        run_both(&mut acc, reg, s, &case);
+                        acc.count("payloads_with_non_finite_floats");
+                    }
+                }
             }
             for b in 0..n_base {
                 unit += 1;
